@@ -55,6 +55,8 @@ func main() {
 		tier := fs.String("tier", "quick", "")
 		seed := fs.Int64("seed", 1, "")
 		out := fs.String("out", "", "")
+		shard := fs.Int("shard", 0, "")
+		nshards := fs.Int("nshards", 1, "")
 		if len(os.Args) < 4 {
 			os.Exit(64)
 		}
@@ -65,6 +67,7 @@ func main() {
 			os.Exit(64)
 		}
 		c := mon.NewCtx(spec.ID, os.Args[3], *tier, *seed, *out)
+		c.Shard, c.NShards = *shard, *nshards
 		spec.Run(c)
 		c.Finish()
 	case "replay":
